@@ -582,8 +582,10 @@ static int jdf_sanity_check_flows_and_deps_number(void)
 
             deps_in = deps_out = 0;
             for(dep = flow->deps; dep != NULL; dep = dep->next) {
-                deps_in += !!(JDF_DEP_FLOW_IN & dep->dep_flags);
-                deps_out += !!(JDF_DEP_FLOW_OUT & dep->dep_flags);
+                /* A ternary guard generates two runtime dependencies (iftrue and iffalse) */
+                int nb = (JDF_GUARD_TERNARY == dep->guard->guard_type) ? 2 : 1;
+                if( JDF_DEP_FLOW_IN & dep->dep_flags ) deps_in += nb;
+                if( JDF_DEP_FLOW_OUT & dep->dep_flags ) deps_out += nb;
             }
             if( MAX_DEP_IN_COUNT < deps_in ) {
                 jdf_warn(JDF_OBJECT_LINENO(flow),
